@@ -76,13 +76,13 @@ def gen_perfect_powers(rng, tier_, ncases, insts, calls, direct):
         route = rng.choice(["api", "libmp"]) if kind != "root" else rng.choice(["api_n", "libmp", "libmp"])
         cid = "pp%05d_%s" % (i, kind)
         call = {"fn": kind, "regime": "perfect_power", "n": n, "prec": prec, "rnd": rnd, "route": route,
-                "args": [enc_arg(x)], "root_bits": qb}
+                "args": [enc_arg(x)], "root_bits": qb, "rnd_class": "nearest" if rnd == "n" or route == "api_n" else "directed"}
         try:
             xm = mk_mpf(mp, x)
             if route == "api":
                 y = ctx_call(mp, 53, lambda: getattr(mp, kind)(xm, prec=prec, rounding=rnd))
             elif route == "api_n":
-                call["rnd"] = rnd = "n"
+                call["rnd"] = rnd = "n"; call["rnd_class"] = "nearest"
                 y = ctx_call(mp, prec, lambda: mp.root(xm, n))
             else:
                 f = {"sqrt": lambda: libmp.mpf_sqrt(xm._mpf_, prec, rnd), "cbrt": lambda: libmp.mpf_cbrt(xm._mpf_, prec, rnd),
